@@ -271,3 +271,66 @@ def _pos_expr(f, o):
             if eb and eb[0] == 'lin' and ka is not None:
                 return ('lin', eb[1], -eb[2], ka - eb[3])
     return None
+
+
+def r6_transform_column(ck, P):
+    """a position vector filled straight from the image transform takes one column of it, row by row"""
+    import re
+    R = ck.rule('C13-R6', 'wherever a gradient fills a vector from entries of the image transform, component k comes from row k and all components from one column (the homogeneous component may be matrix[2][2] once matrix[2][0] and matrix[2][1] are tested to be zero); a vector that is only scaled by the height is the y column', floor=2)
+    n = 0
+    for un, u in P.units.items():
+        if 'gradient' not in un:
+            continue
+        for f in u.functions.values():
+            fills = {}
+            for x in f.insts():
+                if x.op != 'store' or x.a[0][0] != 'v':
+                    continue
+                tp = f.path(x.a[1]); tf = list(tp[1])
+                if len(tf) < 2 or tf[-2] != 'pixman_vector.vector' or f.root(tp)[0] != 'alloca':
+                    continue
+                ld = f.v(f.strip_casts(x.a[0]))
+                if ld is None or ld.op != 'load':
+                    continue
+                sf = list(f.path(ld.a[0])[1])
+                if len(sf) < 3 or sf[-3] != 'pixman_transform.matrix':
+                    continue
+                k = int(tf[-1].strip('[]')); r = int(sf[-2].strip('[]')); c = int(sf[-1].strip('[]'))
+                fills.setdefault(f.root(tp), []).append((k, r, c, x))
+            for base, fl in fills.items():
+                n += 1; ck.saw(f)
+                bad = None
+                cols = {c for k, r, c, x in fl if k < 2}
+                for k, r, c, x in fl:
+                    if r != k:
+                        bad = (x, 'component %d of the vector is taken from row %d of the matrix (entry [%d][%d])' % (k, r, r, c)); break
+                if bad is None and len(cols) > 1:
+                    bad = (fl[0][3], 'the components are taken from different columns %s of the matrix' % sorted(cols))
+                if bad is None:
+                    col = next(iter(cols)) if cols else None
+                    for k, r, c, x in fl:
+                        if k == 2 and c != col:
+                            # allowed only as matrix[2][2] under zero tests of matrix[2][0] and matrix[2][1]
+                            tested = set()
+                            for t, s_ in f.guard_edges(x.bb.id):
+                                cc, pred, ops = f.cond(t.a[0]) if t.a else (None, None, None)
+                                if cc is None or cc.op != 'icmp':
+                                    continue
+                                for o in ops:
+                                    y = f.v(f.strip_casts(o)) if o[0] == 'v' else None
+                                    if y is not None and y.op == 'load':
+                                        q = list(f.path(y.a[0])[1])
+                                        if len(q) >= 3 and q[-3] == 'pixman_transform.matrix' and q[-2] == '[2]':
+                                            tested.add(int(q[-1].strip('[]')))
+                            if not (c == 2 and {0, 1} <= tested):
+                                bad = (x, 'the homogeneous component is matrix[2][%d] although the other components use column %s and the projective entries are not excluded' % (c, col))
+                    hp = [i for i, (pn, pt) in enumerate(f.params) if pn == 'height']; wp = [i for i, (pn, pt) in enumerate(f.params) if pn == 'width']
+                    uses = lambda idx: any(any(o[:2] == ['a', idx] for o in y.a) for y in f.insts() if not (y.op == 'call' and isinstance(y.callee, str) and y.callee.startswith('llvm.dbg')))
+                    if bad is None and col is not None and hp and wp and uses(hp[0]) and not uses(wp[0]) and col != 1:
+                        bad = (fl[0][3], 'the vector is scaled by the height only, i.e. it must be the image of the y unit step (column 1), but column %d is used' % col)
+                if bad:
+                    ck.violation(R, f.name, 'vector filled from the transform', '%s: %s; the gradient parameter is then evaluated along the wrong direction for sheared or rotated transforms' % (f.name, bad[1]), bad[0].loc())
+                else:
+                    ck.ok(R, '%s: vector = column %s of the transform' % (f.name, sorted(cols)))
+    if n == 0:
+        ck.incomplete(R, 'no vector filled from transform entries found in the gradient units')
